@@ -160,7 +160,8 @@ func RunC11(c *core.Ctx) {
 		}
 		chName := cs.Req.Ch.String()
 		if cs.Req.Long {
-			chName = strings.Repeat("x/", 24)
+			// more levels than a key target can hold (23): plain, and ending in the multi-level wildcard
+			chName = []string{strings.Repeat("x/", 24), strings.Repeat("x/", 24) + "#/", strings.Repeat("x/", 23) + "#/", strings.Repeat("x/", 30) + "#/"}[n%4]
 		}
 		if !cs.Req.ChOK {
 			chName = strings.TrimSuffix(chName, "/")
